@@ -16,6 +16,8 @@ ASSUMPTIONS = ["real members of a class satisfy the literature's condition (math
 def run(ctx):
     ca = formula.get(ctx.repo)
     n = formula.r_formula(ctx, "sound")
+    from . import hookprog
+    hookprog.r_hook_programs(ctx, "sound")      # every hook unrolled on three concrete samples: nothing but (weakenings of) documented instances is emitted
     formula.r_params(ctx)       # the conditions are written with the parameters the user gave
     formula.r_regen(ctx)        # stale conditions (of other parameters / samples) exclude members of the current class
     formula.r_statpair(ctx)     # the stationary sample a family invents is a fresh one
